@@ -934,6 +934,15 @@ class PGPMessage(Armorable, PGPObject):
         return list(self._signatures)
 
     @property
+    def _signed_content(self):
+        # what signatures on this message are made over
+        if self.type == 'cleartext':
+            # RFC 4880 7.1: trailing spaces and tabs of a line are not part of the signed text of a cleartext message
+            return re.subn(r'[ \t]+(?=\r?\n|\Z)', '', self.message)[0]
+
+        return self.message
+
+    @property
     def signers(self):
         """A ``set`` containing all key ids (if any) which have signed this message."""
         return set(m.signer for m in self._signatures)
@@ -2048,7 +2057,7 @@ class PGPKey(Armorable, ParentRef, PGPObject):
             if subject.type == 'cleartext':
                 sig_type = SignatureType.CanonicalDocument
 
-            subject = subject.message
+            subject = subject._signed_content
 
         sig = PGPSignature.new(sig_type, self.key_algorithm, hash_algo, self.fingerprint.keyid, created=prefs.pop('created', None))
 
@@ -2439,7 +2448,7 @@ class PGPKey(Armorable, ParentRef, PGPObject):
         if signature is None:
             if isinstance(subject, PGPMessage):
                 for sig in _filter_sigs(subject.signatures):
-                    sspairs.append((sig, subject.message))
+                    sspairs.append((sig, subject._signed_content))
 
             if isinstance(subject, (PGPUID, PGPKey)):
                 sspairs += [ (sig, subject) for sig in _filter_sigs(subject.__sig__) ]
